@@ -62,7 +62,76 @@ def gate_sites():
     return sites
 
 
+# listener functions that pass an inbound connection on, the gates each is responsible for,
+# and the statements by which it passes the connection on (regexes).  Codes in the emitted
+# sequence: 3 InterceptAccept, 4 InterceptSecured(inbound), 5 InterceptSecured(outbound),
+# 13 delegated GatedMaListener.Accept, 14 delegated upgrader.Upgrade, 9 hand-off, 99 expected
+# hand-off pattern not found.
+HANDOFFS = [
+    (1, "p2p/net/upgrader/listener.go", "gatedMaListener.Accept", [3], [r"return\s+conn\s*,\s*connScope\s*,\s*nil"], []),
+    (1, "p2p/net/upgrader/upgrader.go", "upgrader.upgrade", [4, 5], [r"return\s+tc\s*,\s*nil"], []),
+    (1, "p2p/net/upgrader/listener.go", "listener.handleIncoming", [13, 14], [r"l\.incoming\s*<-\s*conn"],
+     [(13, r"l\.GatedMaListener\.Accept\s*\("), (14, r"l\.upgrader\.Upgrade\s*\(")]),
+    (2, "p2p/transport/quic/listener.go", "listener.Accept", [3, 4],
+     [r"connCh\s*<-\s*c\b", r"return\s+c\s*,\s*nil"], []),
+    (3, "p2p/transport/webtransport/listener.go", "listener.httpHandler", [3], [r"l\.httpHandlerWithConnScope\s*\("], []),
+    (3, "p2p/transport/webtransport/listener.go", "listener.httpHandlerWithConnScope", [4], [r"l\.queue\s*<-\s*conn"], []),
+    (4, "p2p/transport/webrtc/listener.go", "listener.handleCandidate", [3, 4], [r"return\s+conn\s*,\s*nil"], []),
+]
+
+
+def func_bodies(src):
+    """{'recv.name' or 'name': (start, end)} for top-level funcs"""
+    ms = list(re.finditer(r"^func\s+(?:\(\s*\w+\s+\*?(\w+)(?:\[[^\]]*\])?\s*\)\s*)?(\w+)", src, re.M))
+    res = {}
+    for i, m in enumerate(ms):
+        name = (m.group(1) + "." if m.group(1) else "") + m.group(2)
+        res[name] = (m.start(), ms[i + 1].start() if i + 1 < len(ms) else len(src))
+    return res
+
+
+def handoff_order():
+    rows = []
+    for fam, rel, fn, req, pats, extra in HANDOFFS:
+        p = os.path.join(REPO, rel)
+        seq = [99]
+        if os.path.exists(p):
+            src = strip_go_comments(open(p, errors="replace").read())
+            fb = func_bodies(src)
+            if fn in fb:
+                a, b = fb[fn]
+                body = src[a:b]
+                items = []
+                for m in re.finditer(r"\.(Intercept(?:Accept|Secured))\s*\(\s*([^,)]*)", body):
+                    if m.group(1) == "InterceptAccept":
+                        items.append((m.start(), 3))
+                    else:
+                        arg = m.group(2)
+                        if "DirInbound" in arg:
+                            items.append((m.start(), 4))
+                        elif "DirOutbound" in arg:
+                            items.append((m.start(), 5))
+                        else:
+                            items += [(m.start(), 4), (m.start(), 5)]
+                for code, rx in extra:
+                    items += [(m.start(), code) for m in re.finditer(rx, body)]
+                for rx in pats:
+                    found = [(m.start(), 9) for m in re.finditer(rx, body)]
+                    items += found if found else [(len(body), 99)]
+                seq = [c for _, c in sorted(items)]
+        rows.append((fam, rel, fn, req, seq))
+    return rows
+
+
 def consts(ctx):
+    rows = handoff_order()
+    ctx.add_const_raw("Definition c10_handoff_order : list (Z * list Z * list Z) :=\n  [%s]." % ";\n   ".join(
+        "(%d, [%s], [%s])" % (fam, "; ".join(map(str, req)), "; ".join(map(str, seq))) for fam, _, _, req, seq in rows),
+        "gates and hand-offs (9) in source order inside the listener functions:\n" + "\n".join(
+            "   family %d %s %s requires %s: %s" % (fam, rel, fn, req, seq) for fam, rel, fn, req, seq in rows))
+    ctx.coverage_extra["handoff_order"] = ["family %d %s %s requires %s sequence %s" % r for r in rows]
+    ctx.obligations.append(("consts:c10_handoff_order(%d functions)" % len(rows), all(99 not in r[4] for r in rows),
+                            "; ".join("%s: pattern not found" % r[2] for r in rows if 99 in r[4])))
     sites = gate_sites()
     rows = []
     for fam, name, _ in FAMILIES:
@@ -180,7 +249,10 @@ def probe_s(p):
 
 
 def parse_e2e(t):
-    d = {"dir": "outbound (G dials R)" if t[1] == 0 else "inbound (R dials G)", "transport": t[2], "reachable": t[3]}
+    d = {"dir": "outbound (G dials R)" if t[1] == 0 else "inbound (R dials G)", "transport": t[2] % 16,
+         "dial_context": {0: "plain", 1: "WithForceDirectDial", 2: "WithSimultaneousConnect(client)", 3: "WithAllowLimitedConn",
+                          4: "WithNoDial (NewStream)", 5: "QUIC server-role hole punch of G towards R in flight"}.get(t[2] // 16, "?"),
+         "reachable": t[3]}
     nc = t[4]
     pos = 5
     d["calls"] = [call_s(t[pos + 10 * i:pos + 10 * i + 10]) for i in range(nc)]
@@ -247,7 +319,7 @@ def key(tag, toks, d):
             return "C10:gater:clause%d:%s:%s" % (clause, where, canon_history(evs, i))
         if toks[0] == 1:
             e = parse_e2e(toks)
-            return "C10:e2e:%s:tpt%s:%s:%s" % (e["dir"].split()[0], e["transport"], d[1:3], "; ".join(e["calls"]))
+            return "C10:e2e:%s:tpt%s:ctx=%s:%s:%s" % (e["dir"].split()[0], e["transport"], e["dial_context"], d[1:3], "; ".join(e["calls"]))
     except Exception:
         pass
     return "C10:%s:%s" % (d, " ".join(map(str, toks[:60])))
@@ -271,7 +343,7 @@ def what(tag, toks, d):
             return s
         if toks[0] == 1 and d[0] == 902:
             e = parse_e2e(toks)
-            return "%s, after %s: %s" % (e["dir"], "; ".join(e["calls"]), CLAUSE.get(d[1], d))
+            return "%s [dial context: %s], after %s: %s" % (e["dir"], e["dial_context"], "; ".join(e["calls"]), CLAUSE.get(d[1], d))
     except Exception:
         pass
     return "monitor diag %s" % d
@@ -306,7 +378,9 @@ if __name__ == "__main__":
              "ip6zone, dns*, unix, p2p-circuit; tcp, quic-v1, ws, wss, webtransport, webrtc-direct, relayed) aimed at the rules and at the first/last "
              "address of every subnet and the addresses just outside. end-to-end: real swarms (G with the gater wrapped in a recording "
              "delegate and counting transports, R without) over TCP (+ QUIC, WebSocket, WebTransport in the thorough tier), remote blocked by "
-             "peer / address in each form / subnet, both directions, before and after a restart of the gater. Every observation is compared "
+             "peer / address in each form / subnet, both directions, before and after a restart of the gater; outbound with every dial-context "
+             "option (plain, WithForceDirectDial, WithSimultaneousConnect, WithAllowLimitedConn, WithNoDial) x blocked by address / subnet / peer; "
+             "inbound QUIC while a server-role hole punch of G towards the remote is in flight and the remote is blocked in between. Every observation is compared "
              "with the Coq model (conform_case) and judged by the property monitor (monitor_case).",
         describe=describe, key=key, what=what, crosscheck=60,
     ))
